@@ -187,7 +187,7 @@ pub fn run_ctx(tier: &str, seed: u64, out: &mut Out) {
             lit = lit
         );
         let mut g = TmplGroup::new();
-        let diags = g.add_tmpl("p", &src);
+        let diags = { crate::util::note_input(&*src); g.add_tmpl("p", &src) };
         let max_level = diags.iter().map(|d| d.kind.level() as u8).max().unwrap_or(0);
         let bundle = g.get_tmpl_gen_object_groups().unwrap_or_default();
         let job = serde_json::json!({
@@ -217,7 +217,7 @@ pub fn run_entnames(out: &mut Out) {
             src.push_str(&format!("<v a=\"[&{};]\">[&{};]</v>", n, n));
         }
         let mut g = TmplGroup::new();
-        g.add_tmpl("p", &src);
+        { crate::util::note_input(&*src); g.add_tmpl("p", &src) };
         let bundle = g.get_tmpl_gen_object_groups().unwrap_or_default();
         let j = serde_json::json!({"kind": "e2e", "names": chunk, "bundle": bundle, "src": src});
         out.raw(&j.to_string());
@@ -259,7 +259,7 @@ pub fn run_entscan(tier: &str, seed: u64, out: &mut Out) {
                 continue;
             }
             let mut g = TmplGroup::new();
-            g.add_tmpl("p", &src);
+            { crate::util::note_input(&*src); g.add_tmpl("p", &src) };
             let bundle = g.get_tmpl_gen_object_groups().unwrap_or_default();
             let mut named = vec![];
             let b: Vec<char> = t.chars().collect();
